@@ -149,7 +149,10 @@ def outcome(fn):
     try:
         return ['ok', fn()]
     except Exception as e:
-        return ['raise', type(e).__name__, str(e)]
+        origin = getattr(e, '_GlomError__wrapped', None)
+        # the error is still an instance of the class that was raised (classes are objects: two may share a __name__)
+        keeps = True if origin is None else isinstance(e, type(origin))
+        return ['raise', type(e).__name__, str(e)] + ([] if keeps else ['NOT an instance of the raised class %s.%s' % (type(origin).__module__, type(origin).__qualname__)])
 
 
 def build_calls(case, gates):
@@ -231,6 +234,9 @@ def run_calls(case):
     for i, (a, b) in enumerate(zip(alone, together)):
         if a != b:
             problems.append('call %d alone %r, interleaved %r' % (i, _short(a), _short(b)))
+        for which, o in (('alone', a), ('interleaved', b)):
+            if o[0] == 'raise' and len(o) > 3:
+                problems.append('call %d %s: %s' % (i, which, o[3]))
     if fresh is not None:
         for i, (a, b) in enumerate(zip(fresh, alone)):
             # the two spec objects hold different function objects: addresses in error texts are not compared
@@ -404,7 +410,7 @@ def gen_calls(rng, k):
             path, _ = rng.choice(pos)
             orig = get_at(spec, path)
             if orig[0] not in ('Bind', 'Let', 'AssignScope'):
-                spec = set_at(spec, path, ['Tuple', [orig, ['Fn', ['raise', rng.choice(['ValueError', 'KeyError', 'GPlain', 'UAttr'])]]]])
+                spec = set_at(spec, path, ['Tuple', [orig, ['Fn', ['raise', rng.choice(['ValueError', 'KeyError', 'GPlain', 'UAttr', 'UTwinA', 'UTwinB', 'UTwinK', 'UTwinA', 'UTwinB'])]]]])
         spec = plant_gates(rng, spec, 10 * i)
         calls.append({'target': t, 'spec': spec})
     return calls
